@@ -467,36 +467,39 @@ Qed.
 (* ---------- the transaction ---------- *)
 Lemma wf_tx_parts t : wf_tx t = true ->
   t_version t < two32 /\ t_locktime t < two32 /\ lenL (t_ins t) < two64 /\ lenL (t_outs t) < two64 /\
-  (forall i, In i (t_ins t) -> wf_in i = true) /\ (forall o, In o (t_outs t) -> wf_out o = true) /\
-  (has_witness t || (forallb no_wit_in (t_ins t) && forallb no_wit_out (t_outs t))) = true.
+  (forall i, In i (t_ins t) -> wf_in i = true) /\ (forall o, In o (t_outs t) -> wf_out o = true).
 Proof.
   unfold wf_tx. intro H. rewrite !andb_true_iff in H.
-  destruct H as [[[[[[A B] C] D] E] F] G]. rewrite forallb_forall in E, F.
+  destruct H as [[[[[A B] C] D] E] F]. rewrite forallb_forall in E, F.
   repeat split; try assumption; lia.
 Qed.
 
+Lemma existsb_false {A} (f : A -> bool) l : existsb f l = false -> forall x, In x l -> f x = false.
+Proof.
+  induction l as [|a l IH]; intros H x Hx; [destruct Hx|]. cbn [existsb] in H.
+  apply orb_false_iff in H as [H1 H2]. destruct Hx as [<-|Hx]; [exact H1 | apply IH; assumption].
+Qed.
+
 Lemma has_witness_false_no_wit t :
-  wf_tx t = true -> has_witness t = false ->
+  has_witness t = false ->
   map strip_in (t_ins t) = t_ins t /\ map strip_out (t_outs t) = t_outs t.
 Proof.
-  intros W H. apply wf_tx_parts in W as (_ & _ & _ & _ & _ & _ & G).
-  rewrite H in G. cbn [orb] in G. apply andb_true_iff in G as [G1 G2].
-  rewrite forallb_forall in G1, G2.
+  intro H. unfold has_witness in H. apply orb_false_iff in H as [H G2]. apply orb_false_iff in H as [_ G1].
+  unfold any_witness_input in G1. unfold any_conf_output in G2.
   split.
   - rewrite <- (map_id (t_ins t)) at 2. apply map_ext_in. intros i Hi.
-    apply G1 in Hi. unfold no_wit_in in Hi. rewrite !andb_true_iff in Hi.
-    destruct Hi as [[[A B] C] D].
+    pose proof (existsb_false _ _ G1 i Hi) as Hi'. cbn beta in Hi'.
     destruct i as [h ix sq sc w pg pw iss irp inrp]; cbn in *.
     destruct w, pw, irp, inrp; try discriminate. reflexivity.
   - rewrite <- (map_id (t_outs t)) at 2. apply map_ext_in. intros o Ho.
-    apply G2 in Ho. unfold no_wit_out in Ho. apply andb_true_iff in Ho as [A B].
+    pose proof (existsb_false _ _ G2 o Ho) as Ho'. cbn beta in Ho'.
     destruct o as [a v s n rp sp]; cbn in *. destruct rp, sp; try discriminate. reflexivity.
 Qed.
 
 Theorem tx_parse_ser t rest :
   wf_tx t = true -> parse_tx (ser_full t ++ rest) = Some (norm_tx t, rest).
 Proof.
-  intro W. pose proof W as W0. apply wf_tx_parts in W as (Hv & Hl & Hni & Hno & H1 & H2 & _).
+  intro W. pose proof W as W0. apply wf_tx_parts in W as (Hv & Hl & Hni & Hno & H1 & H2).
   unfold parse_tx, ser_full, ser_tx, bind. cbn [andb negb]. rewrite <- !app_assoc.
   rewrite p_le_app by (cbn; unfold two32 in *; lia).
   cbn [app].
@@ -523,7 +526,7 @@ Proof.
       [| intros; apply p_out_wit_app; apply H2; assumption | intros; apply ser_out_wit_nonempty].
     unfold ret, norm_tx. rewrite HW. rewrite zip_in_wit by (apply Forall_forall; auto). rewrite zip_out_wit. reflexivity.
   - cbn [N.eqb app]. unfold ret, norm_tx. rewrite HW.
-    destruct (has_witness_false_no_wit t W0 HW) as [-> ->]. reflexivity.
+    destruct (has_witness_false_no_wit t HW) as [-> ->]. reflexivity.
 Qed.
 
 (* ---------- the converse: accepted bytes re-serialize to themselves ---------- *)
@@ -552,9 +555,9 @@ Lemma stripped_no_witness ins outs :
   forall v f l, has_witness (mk_tx v f l ins outs) = (f =? 1).
 Proof.
   intros Hi Ho v f l. unfold has_witness, any_witness_input, any_conf_output. cbn [t_flag t_ins t_outs].
-  assert (A : existsb (fun i => nonempty (in_witness i) || nonempty (in_pegwit i)) ins = false).
+  assert (A : existsb (fun i => nonempty (in_witness i) || nonempty (in_pegwit i) || nonempty (in_irp i) || nonempty (in_inrp i)) ins = false).
   { induction Hi as [|i ins [_ S] _ IH]; [reflexivity|]. cbn [existsb]. rewrite IH, <- S. reflexivity. }
-  assert (B : existsb (fun o => nonempty (o_rp o)) outs = false).
+  assert (B : existsb (fun o => nonempty (o_rp o) || nonempty (o_sp o)) outs = false).
   { induction Ho as [|o outs [_ S] _ IH]; [reflexivity|]. cbn [existsb]. rewrite IH, <- S. reflexivity. }
   rewrite A, B, !orb_false_r. reflexivity.
 Qed.
@@ -625,7 +628,7 @@ Proof.
     destruct (zip_in_ser ins iw LI) as [_ [_ A3]]. destruct (zip_out_ser outs ow LO) as [_ [_ B3]].
     unfold wf_tx. cbn [t_version t_flag t_locktime t_ins t_outs].
     assert (HW : has_witness (mk_tx ver 1 lt (zip_with set_in_wit ins iw) (zip_with set_out_wit outs ow)) = true) by reflexivity.
-    rewrite HW. unfold lenL. rewrite A3, B3. fold (lenL ins) (lenL outs). cbn [orb].
+    unfold lenL. rewrite A3, B3. fold (lenL ins) (lenL outs).
     rewrite !andb_true_iff. repeat split; try lia.
     + apply forallb_forall. clear -Fin Fiw LI. revert iw Fiw LI.
       induction Fin as [|i ins [Wi Si] _ IH]; intros [|w iw] Fiw LI x Hx; try discriminate; [destruct Hx|].
@@ -651,12 +654,7 @@ Proof.
   - unfold ret. intro H; inversion H; subst. unfold canonical_flag. cbn [t_flag]. intro CF.
     destruct (N.eqb_spec flag 0) as [F0|F0]; [|destruct (N.eqb_spec flag 1); [lia|discriminate]].
     subst flag. unfold wf_tx. cbn [t_version t_flag t_locktime t_ins t_outs].
-    rewrite (stripped_no_witness ins outs Fin Fout). cbn [N.eqb orb].
     rewrite !andb_true_iff. repeat split; try lia.
     + apply forallb_forall. intros x Hx. rewrite Forall_forall in Fin. apply Fin in Hx as [Hx _]. exact Hx.
     + apply forallb_forall. intros x Hx. rewrite Forall_forall in Fout. apply Fout in Hx as [Hx _]. exact Hx.
-    + apply forallb_forall. intros x Hx. rewrite Forall_forall in Fin. apply Fin in Hx as [_ Hx].
-      rewrite <- Hx. reflexivity.
-    + apply forallb_forall. intros x Hx. rewrite Forall_forall in Fout. apply Fout in Hx as [_ Hx].
-      rewrite <- Hx. reflexivity.
 Qed.
